@@ -16,7 +16,7 @@
    codecs are those of Gen.v. *)
 From Coq Require Import List NArith ZArith Bool.
 Import ListNotations.
-From Cffi Require Import C35.PyStr C24.Utf8 C23.Model.
+From Cffi Require Import C35.PyStr C35.Model C24.Utf8 C23.Model.
 Open Scope N_scope.
 
 (* the codec named by an `encoding=` argument.  Which codec each of the tool's files uses is a REGENERATED fact:
@@ -99,3 +99,85 @@ Definition gen_src_exec_python (to_stdout : bool) (script_file : list N) (var : 
 Definition direct_of_script (script var : str) : option (list N) :=
   match find_ffi script var with None => None | Some f => write_text Utf8 (emit f) end.
 End Pipelines.
+
+(* ------------------------------------------------------------------------------------------------------------
+   The tool as a program (REVIEW3 item 12).  coq/C24/Gen.v holds, regenerated from _cffi_gen_src.py on every run
+   as statement-by-statement translations (tools/props/c24.py `Stmts`), the functions make_ffi_from_sources,
+   generate_c_source, exec_python, read_sources and run; the vocabulary they are translated into is below.
+   Everything that can raise returns `res`; an exception ends the function (bind).  What cffi itself does is a
+   record of primitives `prims` (abstract: the theorems hold for every instance). *)
+Inductive err :=
+| EDecode          (* UnicodeDecodeError while reading an input file *)
+| ECffi            (* cdef() / set_source() refused the text *)
+| EName | EType    (* find_ffi_in_python_script: name not bound / not an FFI *)
+| EScript          (* the script raised *)
+| EEncode          (* the generated text is not encodable *)
+| EInternal        (* a shape of _make_c_or_py_source outside the model (never, for the regenerated holes) *)
+| EUsage.          (* parser.error(): exit status 2 *)
+
+Inductive res (A : Type) := Ok (a : A) | Err (e : err).
+Arguments Ok {A} a.
+Arguments Err {A} e.
+Definition bind {A B} (r : res A) (k : A -> res B) : res B := match r with Ok a => k a | Err e => Err e end.
+
+Record prims (ffi : Type) := {
+  p_new : ffi;                                   (* FFI() *)
+  p_cdef : ffi -> str -> res ffi;                (* ffi.cdef(text) *)
+  p_set_source : ffi -> str -> str -> res ffi;   (* ffi.set_source(module_name, source) *)
+  p_gen : ffi -> genarg -> str;                  (* the text Recompiler.write_source_to_f(_, arg) writes for this ffi:
+                                                    C23.Model.make_source's `gen` (cffi's text-to-text work) *)
+  p_find : str -> str -> str -> res ffi          (* find_ffi_in_python_script(pysrc, filename, ffivar) *)
+}.
+Arguments p_new {ffi}. Arguments p_cdef {ffi}. Arguments p_set_source {ffi}. Arguments p_gen {ffi}. Arguments p_find {ffi}.
+
+(* an input file object as argparse.FileType hands it over: name, bytes on disk, the codec it was opened with *)
+Record infile := { if_name : str; if_bytes : list N; if_codec : codec }.
+Definition m_read (f : infile) : res str :=
+  match read_text (if_codec f) (if_bytes f) with Some s => Ok s | None => Err EDecode end.
+
+(* io.StringIO: its content *)
+Definition sio := str.
+Definition m_sio_new : res sio := Ok [].
+Definition m_getvalue (o : sio) : res str := Ok o.
+
+(* FFI.emit_c_code(target) (api.py:679: recompile(c_file=target, call_c_compiler=False) -> make_c_source ->
+   _make_c_or_py_source) — C23's model of the whole function, with the holes regenerated from recompiler.py.
+   File-like target: the text it receives is appended to it. *)
+Definition m_emit_c_code {ffi} (P : prims ffi) (h : holes) (f : ffi) (o : sio) : res sio :=
+  match make_source h (p_gen P f) true true None with
+  | Some (_, Some w, _) => Ok (o ++ w)
+  | _ => Err EInternal
+  end.
+(* path target holding `old` (None = absent): the content of the target afterwards (text; POSIX rename) *)
+Definition emit_c_code_to_path {ffi} (P : prims ffi) (h : holes) (f : ffi) (old : option str) : res (option str) :=
+  match make_source h (p_gen P f) false true old with
+  | Some (t, _, _) => Ok (f_target (run t (fs0 old)))
+  | None => Err EInternal
+  end.
+
+(* what a run of the tool leaves behind: bytes written to OUTPUT (a path: created or truncated first) or stdout *)
+Inductive effect := NoOutput | Wrote (to_stdout : bool) (b : list N).
+Definition dash : str := [45].
+(* write_c_source(output, generated): its two branches are the regenerated `writers` / `codecs` facts *)
+Definition m_write_c_source (ws : writers) (cs : codecs) (output generated : str) : res effect :=
+  match write_out ws cs (str_eqb output dash) generated with
+  | Some b => Ok (Wrote (str_eqb output dash) b)
+  | None => Err EEncode
+  end.
+
+(* the namespace parser.parse_args() returns (the argparse declarations themselves are not modelled; the codecs
+   of the three FileType arguments are the regenerated `the_codecs`) *)
+Record parsed := { a_mode : str; a_output : str; a_pyfile : infile; a_ffi_var : str; a_module_name : str;
+                   a_cdef : infile; a_csrc : infile; a_same_file : bool (* same_input_file(args.cdef, args.csrc) *) }.
+Definition exit_status {A} (r : res A) : Z := match r with Ok _ => 0 | Err EUsage => 2 | Err _ => 1 end%Z.
+
+(* the reference: FFI().cdef(text); set_source(name, prelude); emit_c_code(path) into a target holding `old`,
+   the file's text encoded in the (UTF-8) locale *)
+Definition direct_ffi {ffi} (P : prims ffi) (name cdef csrc : str) : res ffi :=
+  bind (p_cdef P (p_new P) cdef) (fun f => p_set_source P f name csrc).
+Definition direct_bytes {ffi} (P : prims ffi) (h : holes) (f : ffi) (old : option str) : res (option (list N)) :=
+  bind (emit_c_code_to_path P h f old) (fun c =>
+    match c with
+    | None => Ok None
+    | Some t => match write_text Utf8 t with Some b => Ok (Some b) | None => Err EEncode end
+    end).
